@@ -21,6 +21,8 @@ from . import common, flowgraph, pygen
 KNOWN_CLASSES = {
     'C08-long-assignment-chain': 'RecursionError when a name is defined through a chain of several hundred single assignments '
                                  '(a1 = a0; a2 = a1; ...): the evaluator uses about three Python frames per link',
+    'C08-deep-nesting': 'RecursionError from assist / location when the file nests more than about 60 blocks (the marked tree is '
+                        'walked recursively, several Python frames per nesting level; lint still answers)',
 }
 
 
@@ -141,6 +143,7 @@ SPECIAL = [
     ('import-list-60-lines', 'from os import (\n' + ''.join('    n%d,\n' % i for i in range(60)) + ')\nn59\n', (63, 3)),
     ('import-list-60-unused', 'def f():\n    from os import (\n' + ''.join('        n%d,\n' % i for i in range(60)) + '    )\n', (1, 0)),
     ('def-continuation', 'def \\\n\\\n   far_name():\n    pass\nfar_name\n', (5, 8)),
+    ('deep-nest-70', 'c = 1\n' + ''.join(' ' * d + 'if c:\n' for d in range(70)) + ' ' * 70 + 'v = c\nv\n', (73, 1)),
     ('empty', '', (1, 0)),
     ('only-newlines', '\n\n\n', (2, 0)),
     ('cursor-below', 'x = 1\n', (7, 0)),
@@ -221,6 +224,8 @@ def param_matrix():
 def classify_failure(what, label):
     if 'RecursionError' in what and 'chain' in label:
         return 'C08-long-assignment-chain'
+    if 'RecursionError' in what and 'deep-nest' in label:
+        return 'C08-deep-nesting'
     return None
 
 
